@@ -343,3 +343,66 @@ def cleanup_scratch():
             shutil.rmtree(os.path.join(SCRATCH, d), ignore_errors=True)
         except PermissionError:
             pass
+
+
+# ---------------------------------------------------------------------------------------------
+def run_fuzz(exe, pid, runs, seed, jobs=16, max_len=256, dict_path=None, timeout=3000):
+    """Run a libFuzzer target as `jobs` independent processes (distinct seeds).  Returns a Shard: evaluations = executions,
+    counters with coverage, one violation per artifact (key from the target's own VF-FUZZ-VIOLATION line or the sanitizer
+    summary); artifacts are copied under /verif/replay/<pid>/ so the replay command keeps working."""
+    import glob
+    import re
+    d = scratch_dir("fuzz")
+    sh = Shard()
+    e = dict(os.environ)
+    e["ASAN_OPTIONS"] = "detect_leaks=0:allocator_may_return_null=1:quarantine_size_mb=8:abort_on_error=0"
+    e["UBSAN_OPTIONS"] = "print_stacktrace=1"
+    procs = []
+    for j in range(jobs):
+        adir = os.path.join(d, "j%d" % j)
+        os.makedirs(adir, exist_ok=True)
+        cmd = [exe, "-runs=%d" % runs, "-seed=%d" % (seed * 1000 + j + 1), "-max_len=%d" % max_len, "-artifact_prefix=%s/" % adir, "-print_final_stats=1", "-timeout=25"]
+        if dict_path and os.path.exists(dict_path):
+            cmd.append("-dict=" + dict_path)
+        lf = open(os.path.join(adir, "log"), "w")
+        procs.append((subprocess.Popen(cmd, stdout=lf, stderr=subprocess.STDOUT, env=e, cwd=adir), adir, lf))
+    for p, adir, lf in procs:
+        try:
+            p.wait(timeout=timeout)
+        except subprocess.TimeoutExpired:
+            p.kill()
+            p.wait()
+            sh.notes.append("fuzz job watchdog fired (inconclusive for that job)")
+        lf.close()
+        log = open(os.path.join(adir, "log"), errors="replace").read()
+        m = re.search(r"stat::number_of_executed_units:\s*(\d+)", log)
+        n = int(m.group(1)) if m else 0
+        sh.evaluations += n
+        sh.count("fuzz.executions", n)
+        m = re.findall(r"cov: (\d+)", log)
+        if m:
+            sh.cmax("max_fuzz_coverage_edges", int(m[-1]))
+        m = re.findall(r"corp: (\d+)", log)
+        if m:
+            sh.count("fuzz.corpus_units", int(m[-1]))
+        for art in glob.glob(os.path.join(adir, "crash-*")) + glob.glob(os.path.join(adir, "timeout-*")) + glob.glob(os.path.join(adir, "oom-*")):
+            r = subprocess.run([exe, art], stdout=subprocess.PIPE, stderr=subprocess.STDOUT, text=True, env=e, timeout=120, errors="replace")
+            txt = r.stdout
+            mm = re.search(r"VF-FUZZ-VIOLATION (\S+) ([^\n]*)", txt)
+            if mm:
+                facets = re.sub(r"=\S+", "", mm.group(2)).split()
+                nz = [x.split("=")[0] for x in mm.group(2).split() if "=" in x and x.split("=")[1] not in ("0", "1") or x.endswith("=0") and x.startswith("reset_same")]
+                key = "%s/fuzz/%s/%s" % (pid, mm.group(1), "+".join(nz)[:60] or "monitor")
+                what = mm.group(0)[:300]
+            else:
+                c = Crash("fuzz", r.returncode, txt, os.path.basename(art).split("-")[0])
+                kind, frame = c.summary()
+                key, what = "%s/fuzz/%s/%s" % (pid, kind, frame), "libFuzzer artifact %s: %s" % (os.path.basename(art), kind)
+            rdir = os.path.join(VERIF, "replay", pid)
+            os.makedirs(rdir, exist_ok=True)
+            keep = os.path.join(rdir, "fuzz-" + os.path.basename(art))
+            shutil.copy(art, keep)
+            sh.violation(key, what, {"cmd": "%s %s" % (exe, keep), "artifact": keep, "input_hex": open(art, "rb").read()[:2000].hex(), "stderr": txt[-2500:]})
+    sh.nontrivial("fuzz-%s-%d" % (os.path.basename(exe), seed))
+    sh.nontrivial("fuzz-%s-jobs" % os.path.basename(exe))
+    return sh
